@@ -342,7 +342,7 @@ def run_size_sweep(spec, ctx):
 
 def gen_case(rng, spec):
     shape = rng.choice(netgen.SHAPES + ['nary', 'chain'])
-    net = netgen.rand_net(rng, shape=shape, max_in=5, min_in=1, max_g=spec.get('max_g', 10), max_arity=5,
+    net = netgen.rand_net(rng, shape=shape, max_in=5, min_in=0 if rng.random() < 0.05 else 1, max_g=spec.get('max_g', 10), max_arity=5,
                           n_out=rng.choice([1, 1, 2, 3, 4]), p_wide=0.06,
                           label_style=rng.choice(['plain', 'plain', 'derived', 'derived', 'digits', 'odd']))
     no = len(net.outputs)
